@@ -28,7 +28,8 @@ RULE = ("vector-backed structural entries (owned, string, slice with Vec indices
         "from populated regions, then pushing exactly the announced contents: every capacity reported by heap_size is unchanged and "
         "(plain-data payloads) the counting allocator sees no call inside the pushes; without pre-sizing, n = 2^6..2^12 (quick) / "
         "2^14 (thorough) pushes into every non-coded entry cost at most (#storages) * (log2(bytes stored) + 3) allocator calls; "
-        "non-trivial when the batch would make at least one storage grow if not pre-sized")
+        "the same bound when every small batch is preceded by its own reservation (reserve_items / FlatStack::extend); merge_capacity "
+        "from 1..3 source stacks; non-trivial when the batch would make at least one storage grow if not pre-sized")
 ASSUMPTIONS = ["the allocator, RawVec's growth policy and the optimiser are runtime facts: the theorem covers the bookkeeping "
                "(who reserves how much for which child), the counting allocator covers the rest by sampling"]
 
@@ -147,10 +148,16 @@ def stack_presized(cat, rng, stack):
         target = "a"
         whole = False
     else:
-        b.new("s")
-        for v in vals:
-            b.push("s", v, b.form_for(v))
-        b.merge("m", ["s"])
+        # 1..3 source stacks of different sizes: the merged stack must be sized for their sum
+        k = 1 + rng.below(3)
+        srcs = ["s%d" % i for i in range(k)]
+        for s_ in srcs:
+            b.new(s_)
+        cuts = sorted(rng.below(n + 1) for _ in range(k - 1))
+        owner = [sum(1 for c in cuts if j >= c) for j in range(n)]
+        for v, o in zip(vals, owner):
+            b.push(srcs[o], v, b.form_for(v))
+        b.merge("m", srcs)
         target = "m"
         whole = structural(cat["term"])
     h0 = b.raw("heap %s" % target, None, cmp="none", shape="heap")
@@ -201,6 +208,41 @@ def growth(cat, rng, n, stack=None):
     return b.s
 
 
+def growth_batched(cat, rng, n, stack=None):
+    """the logarithmic bound again, but with a reservation before every small batch (reserve_items on a region,
+    extend on a stack): reserving exactly what the next batch needs must not turn growth into one reallocation per batch"""
+    b = RB(ID, cat, rng, stack)
+    b.s.noshrink = True
+    b.s.model = False
+    b.new("a")
+    b.raw("allocs", None, cmp="none", shape="allocs")
+    pool = [b.value() for _ in range(16)]
+    rforms = [f for f in cat["reserve_forms"] if f not in cat["array_forms"]]
+    forms = [f for f in cat["forms"] if f in ("ref", "slice", "str", "refslice", "refstr", "refref")] or [cat["forms"][0]]
+    done = 0
+    while done < n:
+        batch = [pool[rng.below(len(pool))] for _ in range(1 + rng.below(3))]
+        if stack is not None:
+            b.raw("x a sextend %s [%s]" % (rng.pick(forms), ",".join(b.r(v) for v in batch)), ("eq", "ok"), shape="sext")
+            b.h["a"].vals.extend(batch)
+        else:
+            b.raw("reserve_items a %s [%s]" % (rng.pick(rforms), ",".join(b.r(v) for v in batch)), ("eq", "ok"), shape="rsvi")
+            for v in batch:
+                b.push("a", v, rng.pick(forms), sig="push@" + b.entry)
+        done += len(batch)
+    h = b.raw("heap a", None, cmp="none", shape="heap")
+
+    def logbound(got, replies, h=h):
+        p = parse_pairs(replies[h]) or []
+        calls = int(got.split(" ")[1])
+        used = sum(u for u, _ in p)
+        bound = max(1, len(p)) * (math.ceil(math.log2(used + 2)) + 3)
+        return None if calls <= bound else "%d allocator calls for %d items in reserved batches (%d storages, %d bytes): more than %d" % (calls, done, len(p), used, bound)
+    b.raw("allocs", ("pred", logbound, "O(log n) allocator calls per storage"), cmp="none", sig="linear-allocations-batched@" + b.entry, shape="allocs")
+    b.s.nontrivial = True
+    return b.s
+
+
 def generate(seed, tier):
     rng = Rng(seed * 73 + 18)
     per = {"quick": 6, "thorough": 80, "search": 30}[tier]
@@ -218,4 +260,8 @@ def generate(seed, tier):
     for cat in entries(lambda c: c["caps"]["heap"] and not c["caps"]["coded"] and plain(c["term"])):
         for n in sizes:
             out.append(growth(cat, rng.fork(), n))
+        if cat["reserve_forms"] and [f for f in cat["reserve_forms"] if f not in cat["array_forms"]]:
+            out.append(growth_batched(cat, rng.fork(), sizes[1]))
+        if "vec" in cat["stacks"]:
+            out.append(growth_batched(cat, rng.fork(), sizes[1], "vec"))
     return out
